@@ -188,3 +188,57 @@ Proof.
   - exfalso. destruct Hclass as [Hc|[->| ->]]; [unfold kept_scalar in Hc; rewrite E in Hc; discriminate|vm_compute in E; discriminate..].
   - exfalso. destruct Hclass as [Hc|[->| ->]]; [unfold kept_scalar in Hc; rewrite E in Hc; discriminate|vm_compute in E; discriminate..].
 Qed.
+
+(* ---- ResFloat642Quantity / ResQuantity2Float64 ---- *)
+
+(* float -> Quantity -> float: the amount truncated toward zero to a whole number of units *)
+Theorem float_quantity_float g c x : 0 < g ->
+  quantity_to_float g c (float_to_quantity g c x) = g * Z.quot x g.
+Proof.
+  intros Hg. unfold quantity_to_float, float_to_quantity. destruct c; [lia|].
+  rewrite qvalue_units. lia.
+Qed.
+
+(* ... hence the identity exactly on the integral amounts *)
+Theorem float_quantity_float_id g c x : 0 < g ->
+  (quantity_to_float g c (float_to_quantity g c x) = x <-> (g | x)).
+Proof.
+  intros Hg. rewrite float_quantity_float by exact Hg. split.
+  - intros H. exists (Z.quot x g). lia.
+  - intros [k ->]. rewrite Z.quot_mul by lia. lia.
+Qed.
+
+(* ... and otherwise a truncation toward zero by less than one unit *)
+Theorem float_quantity_float_bounds g c x : 0 < g ->
+  let y := quantity_to_float g c (float_to_quantity g c x) in
+  (0 <= x -> y <= x < y + g) /\ (x <= 0 -> y - g < x <= y).
+Proof.
+  intros Hg. cbn zeta. rewrite float_quantity_float by exact Hg.
+  pose proof (Z.quot_rem' x g) as Hqr.
+  split; intros Hx.
+  - pose proof (Z.rem_bound_pos x g Hx Hg). lia.
+  - destruct (Z.eq_dec x 0) as [->|Hne].
+    + rewrite Z.quot_0_l by lia. lia.
+    + pose proof (Z.rem_bound_pos (- x) g ltac:(lia) Hg) as Hb. rewrite Z.rem_opp_l' in Hb. lia.
+Qed.
+
+(* Quantity -> float -> Quantity: cpu keeps every milli amount; other names keep whole units and round
+   fractional units away from zero (Value()) *)
+Theorem quantity_float_quantity g c m : 0 < g ->
+  float_to_quantity g c (quantity_to_float g c m) = if c then m else 1000 * qvalue m.
+Proof.
+  intros Hg. unfold quantity_to_float, float_to_quantity. destruct c; rewrite Z.quot_mul by lia; reflexivity.
+Qed.
+
+Corollary quantity_float_quantity_id g c m : 0 < g -> (c = true \/ (1000 | m)) ->
+  float_to_quantity g c (quantity_to_float g c m) = m.
+Proof.
+  intros Hg H. rewrite quantity_float_quantity by exact Hg. destruct c; [reflexivity|].
+  destruct H as [H|H]; [discriminate|]. apply qvalue_whole. exact H.
+Qed.
+
+Example conv_nonvacuous :
+  conv_domain 1 4007 = true /\ quantity_to_float 1 true (float_to_quantity 1 true 4007) = 4007 /\
+  float_to_quantity 16 true (16 * 4007 + 9) = 4007 /\ quantity_to_float 1 false 2500 = 3 /\
+  float_to_quantity 1 true (quantity_to_float 1 true 4007) = 4007.
+Proof. vm_compute. repeat split; reflexivity. Qed.
